@@ -270,6 +270,24 @@ example : (C07.run (0 : ℚ) 0 (0 : Nat) (fun a _ => a + 1) almEx probEx [1] [2]
       (exInnerFista exP2 prFx)).y = [2] := by
   decide +kernel
 
+/-- **the whole stack from a point that is not the solution** (`x = [1/2]`: the inner solve iterates) -/
+example : KKTCert (pbOf exB1 exC1 exD1) 1 (1/10) (1/100)
+    (C07.run (0 : ℚ) 0 (0 : Nat) (fun a _ => a + 1) almEx probEx [1/2] [2] none
+      (exInnerFista exP2 prFx)).x
+    (C07.run (0 : ℚ) 0 (0 : Nat) (fun a _ => a + 1) almEx probEx [1/2] [2] none
+      (exInnerFista exP2 prFx)).y :=
+  alm_fista_on_raw_vtable_certifies_kkt (0 : ℚ) 0 (0 : Nat) (fun a _ => a + 1) almEx probEx
+    [1/2] [2] none exB1 exB1_wf exP2 exP2_sound exC1 exD1 exB1_box rfl exWJunk [0] rfl
+    prFx (by norm_num [prFx]) 10 prFx_fuel rfl (fun _ _ => false) (fun _ => false) (fun _ => false)
+    (fun _ => false) [] 0 0
+    (by decide) exC1_ok exD1_ok (by norm_num [almEx]) (by norm_num [almEx]) trivial rfl rfl
+    (by decide +kernel)
+
+/-- … and it does not return its starting point -/
+example : (C07.run (0 : ℚ) 0 (0 : Nat) (fun a _ => a + 1) almEx probEx [1/2] [2] none
+      (exInnerFista exP2 prFx)).x ≠ [1/2] := by
+  decide +kernel
+
 end examples
 
 end Alpaqa.Props.C01FistaC04
